@@ -497,27 +497,87 @@ func checkForwarding(r *Run, prog *Program, a *Anchors, pfx string) {
 			continue
 		}
 		own := fn.Params[len(fn.Params)-1]
-		for _, b := range fn.Blocks {
-			for _, ins := range b.Instrs {
-				c, ok := ins.(*ssa.Call)
-				if !ok {
+		pOwn := paramSym(own)
+		// decided on the paths of fn (unexported helpers interpreted in place): whatever list reaches a sub-evaluation is the
+		// caller's own list, or a fresh copy of it extended by appends
+		ps := NewPathSim(prog)
+		ps.Inline = func(c *ssa.Function) bool {
+			return bexprHelper(prog, a, c) && !recursive(prog, c) && !c.Signature.Variadic()
+		}
+		type verdict struct {
+			ok  bool
+			why string
+		}
+		seen := map[ssa.CallInstruction]*verdict{}
+		var order []ssa.CallInstruction
+		for _, sm := range ps.Run(fn) {
+			for _, ev := range sm.Events() {
+				if ev.Instr == nil || ev.Inlined || ev.Callee == nil || !prog.InModule(ev.Callee) || !ev.Callee.Signature.Variadic() || len(ev.Args) == 0 {
 					continue
 				}
-				callee := c.Call.StaticCallee()
-				if callee == nil || !prog.InModule(callee) || !callee.Signature.Variadic() || len(c.Call.Args) == 0 {
+				last := ev.Args[len(ev.Args)-1]
+				lt := ev.Callee.Signature.Params().At(ev.Callee.Signature.Params().Len() - 1).Type()
+				if !isOptSlice(lt) {
 					continue
 				}
-				last := c.Call.Args[len(c.Call.Args)-1]
-				if !isOptSlice(last.Type()) {
-					continue
+				ok2, why := derivedFromOptionsSym(sm.St, last, pOwn)
+				v := seen[ev.Instr]
+				if v == nil {
+					v = &verdict{ok: true}
+					seen[ev.Instr] = v
+					order = append(order, ev.Instr)
 				}
-				n++
-				ok2, why := derivedFromOptions(last, own, map[ssa.Value]bool{})
-				r.Check(pfx+".forwarding", fn.Name()+"→"+callee.Name(), prog.pos(c.Pos()), ok2, "call to "+callee.Name()+" does not forward the caller's options ("+why+"): tag name, hook, unknown value and bindings would be lost for that sub-evaluation")
+				if !ok2 {
+					v.ok, v.why = false, why
+				}
 			}
+		}
+		for _, ci := range order {
+			n++
+			v := seen[ci]
+			callee := ci.Common().StaticCallee()
+			cn := "?"
+			if callee != nil {
+				cn = callee.Name()
+			}
+			r.Check(pfx+".forwarding", fn.Name()+"→"+cn, prog.pos(ci.Pos()), v.ok, "call to "+cn+" does not forward the caller's options ("+v.why+"): tag name, hook, unknown value and bindings would be lost for that sub-evaluation")
 		}
 	}
 	_ = n
+}
+
+// derivedFromOptionsSym: the list is the options parameter itself, or an append chain whose base is a fresh copy of it
+// (append(nil, own...) / make+copy), extended only by appends.
+func derivedFromOptionsSym(st *pstate, v, own *Sym) (bool, string) {
+	if v.Key() == own.Key() {
+		return true, ""
+	}
+	if v.IsNil() {
+		return false, "nil / no options"
+	}
+	base, parts := appendChain(st, v)
+	if base == nil {
+		return false, "not built from the caller's options: " + shortKey(v)
+	}
+	switch {
+	case base.Key() == own.Key():
+		return false, "appends onto the caller's own list (may write into its backing array)"
+	case base.IsNil():
+		if len(parts) >= 1 && parts[0].Args[1].Key() == own.Key() {
+			return true, ""
+		}
+		return false, "a new slice that does not start from the caller's options"
+	case base.K == sFresh:
+		for _, e2 := range st.events {
+			if isBuiltinCall(&e2, "copy") && len(e2.Args) == 2 && e2.Args[0].Key() == base.Key() && e2.Args[1].Key() == own.Key() {
+				return true, ""
+			}
+		}
+		return false, "a new slice that does not start from the caller's options"
+	case base.K == sSlice:
+		return false, "a re-slice of the options (shares the caller's backing array)"
+	}
+	return false, "not built from the caller's options: " + shortKey(base)
 }
 
 // derivedFromOptions: v is the options parameter itself, or an append chain whose base is a fresh copy of it
